@@ -11,6 +11,13 @@ CHECKS = {
         technique="Coq proof (round-trip / grammar equivalence) + extracted-model differential correspondence",
     ),
 }
+CHECKS["C01"] = dict(
+    category="proof",
+    text="Coq model of the ledger (filterTx/filterBlock/insert/rollback/reorg/processConnectedBlock/queries) with theorems that following any well-formed chain, rolling back, and reorganising to the node's tip yields exactly what the chain pays (Properties/C01.v); tied to the code by replaying generated histories (forks up to depth 4, lagging/stale announcements, multi-block reorg commits, staking/binding/coinbase maturity) on the real WalletManager and on the extracted model, and evaluating the chain specification on the implementation's own reports.",
+    design_ref="DESIGN.md section 5, C01",
+    note="Trusted: Coq kernel, ExtrOcamlBasic extraction + OCaml driver, Go harness (simulated node on mass-core chain DB, generator), verif accessors; mass-core and LevelDB are environment. Record-level model: unspent set and balances are derived from one credit list. No axioms.",
+    technique="Coq proof (refinement of the ledger state machine to a chain specification, induction over histories) + extracted-model differential correspondence on real WalletManager histories",
+)
 NOT_YET = "not claimed yet in this round: model and correspondence under construction (see DESIGN.md section 9 for the order)"
 
 def main():
